@@ -73,6 +73,8 @@ def impl_run(n, ops):
                 W[op["j"]] = H.copy(); out = "ok"
             elif o == "assignMol":
                 H.assign_mol(op["sp"], op["m"]); out = "ok"
+            elif o == "setMolMap":
+                H.set_mol_map(dict(op["mapping"]), strict=op["strict"], clear_existing=op["clear"]); out = "ok"
             else:
                 raise AssertionError(o)
         except KeyError:
@@ -147,6 +149,7 @@ def alphabet_small():
     ops.append({"op": "merge", "k": 1, "j": 0, "pfx": False})
     ops.append({"op": "copy", "k": 0, "j": 1})
     ops.append({"op": "assignMol", "k": 0, "sp": "A", "m": "mA"})
+    ops.append({"op": "setMolMap", "k": 0, "mapping": [["B", "mB"], ["C", "mC"]], "strict": False, "clear": True})
     return ops
 
 
@@ -173,9 +176,12 @@ def random_ops(rnd, length, nslots=3):
         elif c < 0.90:
             j = rnd.choice([x for x in range(nslots) if x != k])
             ops.append({"op": "copy", "k": k, "j": j})
-        else:
+        elif c < 0.95:
             sp = rnd.choice(SP)
             ops.append({"op": "assignMol", "k": k, "sp": sp, "m": "m" + sp})
+        else:
+            mp = [[s, "M" + s] for s in SP if rnd.random() < 0.4]
+            ops.append({"op": "setMolMap", "k": k, "mapping": mp, "strict": rnd.random() < 0.5, "clear": rnd.random() < 0.5})
     return ops
 
 
@@ -229,11 +235,11 @@ def run(ctx):
         "Lean 4.33 kernel; axioms of the property theorems as listed in obligation_list",
         "hand-written model SynKitModel/Store.lean tied to /repo by this correspondence run (not by translation)",
         "Driver/Store.lean JSON codec and harness/props/c15.py adapter + canonicalisation (sorting of sets/dicts)",
-        "modelled: add_rxn (mapping inputs), remove_rxn, remove_species, merge, copy, assign_mol, incidence_matrix; "
-        "not modelled: parse_rxns/add_rxn_from_str (string parsing is C16), set_mol_map, paths/neighbors",
+        "modelled: add_rxn (mapping inputs), remove_rxn, remove_species, merge, copy, assign_mol, set_mol_map, incidence_matrix; "
+        "not modelled: parse_rxns/add_rxn_from_str (string parsing is C16), paths/neighbors",
     ]
     ctx.assumptions = ["species labels, rules and ids are plain strings; side inputs are mappings (dict) as in add_rxn's documented use"]
-    ctx.gen_rule = ("regression corpus first; then ALL op sequences of a 33-op alphabet over 3 species / 2 rules / 2 stores "
+    ctx.gen_rule = ("regression corpus first; then ALL op sequences of a 34-op alphabet over 3 species / 2 rules / 2 stores "
                     "(incl. explicit ids that look generated, merge both ways, copy) to depth 2 (quick) or 3 (thorough), compared on "
                     "outcome of every op and on the final state; then random histories (<=60 ops, 6 species, 3 stores, coefficients "
                     "incl. 0, negative and multi-digit) compared after every op.")
@@ -252,8 +258,8 @@ def run(ctx):
             cases.append((2, list(seq)))
     if ctx.quick:
         # plus a seeded sample of depth-3 sequences
-        for _ in range(3000):
-            cases.append((2, [ctx.rnd.choice(alpha) for _ in range(3)]))
+        for _ in range(8000):
+            cases.append((2, [ctx.rnd.choice(alpha) for _ in range(ctx.rnd.choice([3, 4, 5]))]))
     else:
         for _ in range(20000):
             cases.append((2, [ctx.rnd.choice(alpha) for _ in range(4)]))
@@ -261,7 +267,7 @@ def run(ctx):
         run_cases(ctx, cases, True, "exhaustive-small")
     ctx.extra["exhaustive"] = False
     ctx.extra["exhaustive_part"] = f"all {len(alpha)}^d sequences for d<={depth}"
-    nrand = 150 if ctx.quick else 1500
+    nrand = 300 if ctx.quick else 2000
     rcases = [(3, random_ops(ctx.rnd, ctx.rnd.randint(5, 60))) for _ in range(nrand)]
     if not ctx.violations:
         run_cases(ctx, rcases, False, "random")
